@@ -123,6 +123,8 @@ pub enum SOp {
     Peer { n: usize, t: u64, p: u8 },
     SetPolicy { n: usize, pol: Pol },
     HasNews { n: usize, heads: Vec<(usize, u64)> },
+    /// the author's secret key is imported into the store's authors table (nothing observable changes)
+    ImportAuthor { a: usize },
     Reopen,
     /// C18: close the file store, delete derived tables with plain redb, open it again
     DropDerived {
@@ -663,6 +665,9 @@ impl<'a> StoreWorld<'a> {
                     Err(e) => format!("err:{e}"),
                 };
                 self.lines.push(Line::model(format!("tsetpolicy 1 {} {}", self.nshex(*n), pol.tok()), imp));
+            }
+            SOp::ImportAuthor { a } => {
+                self.rs.store.import_author(self.keys.authors[*a].clone())?;
             }
             SOp::HasNews { n, heads } => {
                 let mut h = AuthorHeads::default();
